@@ -39,7 +39,7 @@ fn json_of(p: &Project) -> Value { json!({"into": p.into, "from": p.from, "words
 fn projects(thorough: bool) -> Vec<(Project, Vec<(String, Option<&'static str>)>, u8)> {
     let names = ["", "Lenition", "Grimm's law 2"];
     let rule_sets: Vec<Vec<&str>> = vec![vec!["p > b / V_V"], vec!["t > d / V_V", "a > e / _#"], vec!["[+cons, -voice] > [+voice] / _$"]];
-    let descs = ["", "one line", "first line\nsecond line"];
+    let descs = ["", "one line", "first line\nsecond line", "first line\n\nthird line after an empty one"];
     let word_lists: Vec<Vec<(String, Option<&'static str>)>> = vec![
         vec![("pa.ta".into(), None)],
         vec![("a.pa".into(), Some("gloss")), ("ta.ta pa".into(), None), ("".into(), Some("only a comment")), ("ˈpa.pa".into(), None)],
@@ -50,7 +50,7 @@ fn projects(thorough: bool) -> Vec<(Project, Vec<(String, Option<&'static str>)>
     let ngroups = if thorough { 3 } else { 2 };
     // every combination of (name, rules, description) per group for up to ngroups groups, cycling the rest
     let mut combos: Vec<Vec<(usize, usize, usize)>> = vec![];
-    let single: Vec<(usize, usize, usize)> = (0..3).flat_map(|n| (0..3).flat_map(move |r| (0..3).map(move |d| (n, r, d)))).collect();
+    let single: Vec<(usize, usize, usize)> = (0..3).flat_map(|n| (0..3).flat_map(move |r| (0..4).map(move |d| (n, r, d)))).collect();
     for a in &single { combos.push(vec![*a]); }
     for a in &single { for b in &single { if thorough || (a.0 + a.1 * 2 + b.2 + b.0) % 4 == 0 { combos.push(vec![*a, *b]); } } }
     if ngroups == 3 { for (i, a) in single.iter().enumerate() { for (j, b) in single.iter().enumerate() { for (k, c) in single.iter().enumerate() { if (i + 2 * j + 3 * k) % 23 == 0 { combos.push(vec![*a, *b, *c]); } } } } }
@@ -143,7 +143,7 @@ fn project_case(n: usize, p: &Project, wl: &[(String, Option<&str>)], sections: 
 
 /// line-kind state machine of the .rsca reader: self-consistency of conv asca . conv json . conv asca
 fn line_kind_case(n: usize, seq: &[usize], a: &mut Acc) {
-    let kinds = ["@ Name", "# a description", "", "a > e", "    t > d / V_V"];
+    let kinds = ["@ Name", "# a description", "", "a > e", "    t > d / V_V", "#"];
     let text: String = seq.iter().enumerate().map(|(i, k)| if *k == 0 { format!("@ Name{}", i) } else { kinds[*k].to_string() }).collect::<Vec<_>>().join("\n");
     let sb = Sandbox::new("c19l", n);
     sb.write("in.rsca", &text); sb.write("in.wsca", "pa.ta\nat");
@@ -157,7 +157,7 @@ fn line_kind_case(n: usize, seq: &[usize], a: &mut Acc) {
     let strip = |v: &Value| -> Vec<Value> { v["rules"].as_array().cloned().unwrap_or_default().into_iter().filter(|g| !(g["name"] == "" && g["rule"].as_array().map(|x| x.is_empty()).unwrap_or(true) && g["description"] == "")).collect() };
     match j3 { Some(j) if strip(&j) == strip(&j1) => a.ok += 1, other => a.viols.push(Viol { key: format!("linekinds-not-idempotent|{:?}", seq), desc: format!("rsca {:?}: conv asca gives {}, after conv json and conv asca again {:?}", text, j1["rules"], other.map(|x| x["rules"].clone())), case: json!({"kind": "lines", "seq": seq}) }) }
     // documented layouts must also agree with the harness's reader
-    let documented = { let mut ok = !seq.is_empty() && seq[0] == 0; let mut st = 0; for k in seq { match (st, *k) { (_, 0) => st = 1, (1, 3) | (1, 4) | (1, 2) => {}, (1, 1) | (2, 1) => st = 2, (2, 2) | (3, 2) => st = 3, _ => ok = false } } ok };
+    let documented = { let mut ok = !seq.is_empty() && seq[0] == 0; let mut st = 0; for k in seq { match (st, *k) { (_, 0) => st = 1, (1, 3) | (1, 4) | (1, 2) => {}, (1, 1) | (2, 1) | (2, 5) => st = 2, (2, 2) | (3, 2) => st = 3, _ => ok = false } } ok };
     if documented {
         a.evals += 1;
         let mine: Vec<Value> = formats::parse_rsca(&text).iter().map(|g| json!({"name": g.name, "rule": g.rule, "description": g.description})).collect();
@@ -169,7 +169,7 @@ pub fn run() -> i32 {
     let mut r = Report::new("C19");
     if !cli_available() { r.machinery_errors.push(format!("{} not built", CLI)); return r.finish(); }
     let thorough = r.thorough();
-    r.rule = "every generated project (1-2 (3) rule groups x name {empty, word, words with punctuation} x 1-2 rules x description {none, one line, two lines}; word lists with comments, comment-only and blank lines, multi-word lines; alias files with neither / either / both sections) serialised to .rsca in every documented layout (indent, blank line between rules, blank line between groups, space after @/#): the real `asca` binary is run in a fresh directory: `run -o` output == asca::run(model), also with the project given as json (`-j`, with and without `-w`); `conv asca` json == model; json -> `conv json` -> files -> `conv asca` -> json is the identity; running the converted files gives the same words. Plus the .rsca reader as a line state machine: every sequence of <= N line kinds {@name, #desc, blank, rule, indented rule}: conv asca . conv json . conv asca == conv asca, and agreement with the manual's reading on documented layouts. Non-trivial = comparisons that held.".into();
+    r.rule = "every generated project (1-2 (3) rule groups x name {empty, word, words with punctuation} x 1-2 rules x description {none, one line, two lines, three lines with an empty one in the middle}; word lists with comments, comment-only and blank lines, multi-word lines; alias files with neither / either / both sections) serialised to .rsca in every documented layout (indent, blank line between rules, blank line between groups, space after @/#): the real `asca` binary is run in a fresh directory: `run -o` output == asca::run(model), also with the project given as json (`-j`, with and without `-w`); `conv asca` json == model; json -> `conv json` -> files -> `conv asca` -> json is the identity; running the converted files gives the same words. Plus the .rsca reader as a line state machine: every sequence of <= N line kinds {@name, #desc, blank, rule, indented rule, bare #}: conv asca . conv json . conv asca == conv asca, and agreement with the manual's reading on documented layouts. Non-trivial = comparisons that held.".into();
     let projs = projects(thorough);
     let layouts: Vec<usize> = if thorough { (0..16).collect() } else { vec![0, 1, 7, 13] };
     let jobs: Vec<(usize, usize)> = (0..projs.len()).flat_map(|i| layouts.iter().map(move |l| (i, *l))).collect();
@@ -178,7 +178,7 @@ pub fn run() -> i32 {
     r.boxes.push(json!({"box": "projects x layouts", "projects": projs.len(), "layouts": layouts.len(), "comparisons": t.evals, "cli_processes": t.procs, "held": t.ok}));
     let nmax = if thorough { 6 } else { 4 };
     let mut seqs: Vec<Vec<usize>> = vec![];
-    for n in 1..=nmax { for idx in 0..5usize.pow(n as u32) { let mut q = idx; let mut s = vec![]; for _ in 0..n { s.push(q % 5); q /= 5; } seqs.push(s); } }
+    for n in 1..=nmax { for idx in 0..6usize.pow(n as u32) { let mut q = idx; let mut s = vec![]; for _ in 0..n { s.push(q % 6); q /= 6; } seqs.push(s); } }
     let mut t2 = Acc::default();
     par_fold(seqs.len(), 4, Acc::default, |i, a| line_kind_case(i, &seqs[i], a), |a| t2.merge(a));
     r.boxes.push(json!({"box": format!("rsca line-kind sequences <= {}", nmax), "files": seqs.len(), "comparisons": t2.evals, "cli_processes": t2.procs, "held": t2.ok}));
